@@ -101,6 +101,11 @@ CHECKS = {
          "For the 10 WDT and 10 WDL versions generated map definitions are written, judged byte-for-byte by an independent chunk walker (exact tiling, documented record layouts, every WDL MAOF offset resolved to the MARE chunk of the right tile), parsed back, compared on content and re-written byte-identically; conversions over all version pairs keep MAIN/MAID and heights/holes. The coordinate clause is decided exhaustively for all 4096 tile indices (corner round trip, forward formula, 5 interior points per tile).",
          "Exhaustive only for the coordinate maps and the MWMO version rule; file round trips are sampled. MAID/ML* layouts taken from the crate's own docs.",
          "DESIGN.md §4 C18"),
+ "C19": ("exploration",
+         "model-based operation histories (deterministic grid + random) against a dlopen'ed libstorm.so in supervised worker processes with guard-page buffers, Rust-API reference and MutableArchive twin; sampled multi-threaded schedules",
+         "2 000 (thorough 50 000) random single-threaded histories of 5–90 C-API calls plus a 46-history deterministic grid covering every API × {live, closed, NULL, forged, wrong-kind} handle, every buffer-size class {0,1,n−1,n,n+1,2^31,260}, every seek origin × {inside, beyond end, before start}, masks × callbacks, V1–V4 read-only and writable archives; each call judged against a handle/cursor/search model and the Rust API (same file, or a twin for writable handles); crashes, guard-page hits and self-deadlocks attributed to the in-flight call; 50 (1 000) multi-threaded runs of 2–8 threads × 200 calls over a shared handle pool. Seven open findings are excluded by switches and re-measured by 19 canaries.",
+         "Schedules are sampled by the OS, not enumerated: absence of races and of schedule-dependent deadlocks is not shown. Verification-result semantics, creation dispositions and ERROR codes are not judged. libstorm.so is the debug build (aborts on UB such as misaligned stores).",
+         "DESIGN.md §4 C19"),
 }
 
 NOT_YET = "check not built yet in this round (planned in DESIGN.md §4); not claimed until it runs silently on the unchanged tree"
